@@ -101,6 +101,35 @@ Proof.
     apply with_arg_inv in E; destruct E as (j & w3 & w4 & E); eapply G; eauto.
 Qed.
 
+(* third round *)
+Lemma find_sent c kr w c' w' : nc_find c kr w = Ok (c', w') -> ssame c c'.
+Proof. unfold nc_find. intros E. minv. apply ssame_refl. Qed.
+Lemma sort_sent c w c' w' : nc_sort c w = Ok (c', w') -> ssame c c'.
+Proof. unfold nc_sort. destruct (2 <=? length (map nv (citems c))); intros E; minv; apply ssame_refl. Qed.
+Lemma emplace_sent c rs w c' w' : nc_emplace c rs w = Ok (c', w') -> ssame c c'.
+Proof.
+  unfold nc_emplace. intros E. minv.
+  match goal with H1 : nc_alloc_item _ _ = _ |- _ => apply alloc_item_sent in H1; destruct H1 end.
+  split; cbn [set_items csent ckind]; congruence.
+Qed.
+Lemma insert_hint_sent c p kr vr w c' w' : nc_insert_hint c p kr vr w = Ok (c', w') -> ssame c c'.
+Proof.
+  unfold nc_insert_hint. intros E. minv.
+  repeat match goal with
+         | H : (match ?d with _ => _ end) _ = Ok _ |- _ => destruct d
+         | H : (if ?d then _ else _) _ = Ok _ |- _ => destruct d
+         end; minv;
+    first [ apply ssame_refl | eapply insert_sent; eauto; fail | eapply fresh_sent; eauto; fail ].
+Qed.
+Lemma insert_all_map_sent src : forall c prev w c' w', nc_insert_all_map c prev src w = Ok (c', w') -> ssame c c'.
+Proof.
+  induction src as [|n r IH]; intros c prev w c' w' E; cbn [nc_insert_all_map] in E; minv; [apply ssame_refl|].
+  eapply ssame_trans; [|eapply IH; eauto].
+  destruct prev as [pk|]; minv; [eapply insert_hint_sent | eapply insert_sent]; eauto.
+Qed.
+Lemma add_all_map_sent c o w c' w' : nc_add_all_map c o w = Ok (c', w') -> ssame c c'.
+Proof. unfold nc_add_all_map. apply insert_all_map_sent. Qed.
+
 Lemma new_sent k w c w' : nc_new k w = Ok (c, w') -> length (csent c) = sent_count k /\ ckind c = k.
 Proof.
   unfold nc_new. intros E. minv. cbn [csent ckind]. split; auto.
@@ -160,6 +189,15 @@ Proof.
                     | eapply ins_args_sent; eauto; fail
                     | eapply remove_at_sent; eauto; fail
                     | eapply add_all_sent; eauto; fail
+                    | eapply add_all_map_sent; eauto; fail
+                    | eapply emplace_sent; eauto; fail
+                    | eapply sort_sent; eauto; fail
+                    | let ii := fresh "ii" in let wa := fresh "wa" in let wb := fresh "wb" in
+                      apply with_arg_inv in Em; destruct Em as (ii & wa & wb & Em); eapply find_sent; eauto; fail
+                    | let ii := fresh "ii" in let wa := fresh "wa" in let wb := fresh "wb" in
+                      let jj := fresh "jj" in let wc := fresh "wc" in let wd := fresh "wd" in
+                      apply with_arg_inv in Em; destruct Em as (ii & wa & wb & Em);
+                      apply with_arg_inv in Em; destruct Em as (jj & wc & wd & Em); eapply insert_hint_sent; eauto; fail
                     | eapply remove_keys_sent; eauto; fail
                     | let ii := fresh "ii" in let wa := fresh "wa" in let wb := fresh "wb" in
                       apply with_arg_inv in Em; destruct Em as (ii & wa & wb & Em); eapply remove_key_sent; eauto; fail ]
